@@ -644,10 +644,27 @@ class Corpus:
         for q in self.queries:
             qs_of.setdefault(q[1], []).append(q)
         added = 0
+        # which definitions get a twin: by FEATURE first (a look-alike matters only on the code path that mentions the name), then by position
+        def feat(k, what):
+            it_ = self.defs[k]
+            if what == "ci":
+                return any(m.kind == "aci" for m in it_.metas) or any(m.kind == "aci" and getattr(m, "b", True) for v in it_.variants for m in v.metas)
+            if what == "default":
+                return any(v.has("default") or v.has("dw") or any(f.dws for f in v.fields) for v in it_.variants)
+            return any(m.kind in ("phf", "pety") for m in it_.metas) or any(v.has("disabled") or v.has("transparent") for v in it_.variants)
+        buckets = [[k for k in base if feat(k, w)] for w in ("ci", "default", "other")]
         for ni, name in enumerate(names):
             step = max(1, len(base) // per_name)
+            chosen = []
             for j in range(per_name):
                 k = base[(ni * 7 + j * step) % len(base)]
+                b = buckets[j % len(buckets)]
+                if b and not feat(k, ("ci", "default", "other")[j % len(buckets)]):
+                    k = b[(ni * 5 + j) % len(b)]
+                if k in chosen:
+                    k = base[(ni * 7 + j * step + 1) % len(base)]
+                chosen.append(k)
+            for k in chosen:
                 it = copy.deepcopy(self.defs[k])
                 it.hostile = [name]
                 meta = dict(self.meta[k])
